@@ -93,7 +93,7 @@ Definition select_run (dflt : bool) (base : str) (inputs : list (str * tree)) (i
 
 Definition tag_is (t : str) (name : str) : bool := str_eqb t name.
 
-(* tags: pm pmspec starok iterpat iterpath iterraw canon simplify accept identify select lister *)
+(* tags: pm pmspec readscanon iterpat iterpath iterraw canon simplify accept identify select lister *)
 Definition run (fields : list str) : list str :=
   match fields with
   | [] => BAD
@@ -106,11 +106,6 @@ Definition run (fields : list str) : list str :=
       else if tag_is tag [112;109;115;112;101;99] then               (* pmspec *)
         match args with
         | [p; t; b; m; _] => [str_of_bool (pathmatch_spec_b p t b (is_d m))]
-        | _ => BAD
-        end
-      else if tag_is tag [115;116;97;114;111;107] then               (* starok *)
-        match args with
-        | [p; b] => [str_of_bool (star_ok (iter_pattern p b))]
         | _ => BAD
         end
       else if tag_is tag [114;101;97;100;115;99;97;110;111;110] then   (* readscanon *)
